@@ -36,6 +36,7 @@ def main():
     ap.add_argument("prop"); ap.add_argument("mdir"); ap.add_argument("sid")
     ap.add_argument("--checks"); ap.add_argument("--tier", default="quick"); ap.add_argument("--skip-confirm", action="store_true")
     ap.add_argument("--worktree")
+    ap.add_argument("--eval-repo", help="run the detection in this scratch worktree of /repo (VERIF_REPO_DIR) instead of /repo itself; /repo stays untouched")
     a = ap.parse_args()
     wt = a.worktree or "/tmp/mut/%s" % a.prop
     meta = json.load(open(os.path.join(a.mdir, "meta.json")))
@@ -69,18 +70,23 @@ def main():
             result["confirmed_by_me"] = dict(fails_with_change=fails_with, passes_without=passes_without, stable_tests_pass_with_change=ok_tests, failing_stable=bad[:5])
             result["confirmed"] = bool(fails_with and passes_without and ok_tests)
             print("confirm: fails_with=%s passes_without=%s stable_ok=%s %s" % (fails_with, passes_without, ok_tests, bad[:3]))
-    # detection against /repo
-    rc, out = sh("git status --porcelain", cwd="/repo")
+    # detection against /repo (or, with --eval-repo, a scratch worktree of it at the same commit)
+    target = a.eval_repo or "/repo"
+    if a.eval_repo:
+        ENV["VERIF_REPO_DIR"] = a.eval_repo
+        ENV["VERIF_BUILD_DIR"] = a.eval_repo.rstrip("/") + "-build"
+        sh("git checkout -q --detach %s" % sh("git rev-parse HEAD", cwd="/repo")[1].strip(), cwd=target)
+    rc, out = sh("git status --porcelain", cwd=target)
     if out.strip():
-        print("/repo is not clean, refusing"); sys.exit(2)
-    rc, out = sh("git apply --check %s" % patch, cwd="/repo")
+        print("%s is not clean, refusing" % target); sys.exit(2)
+    rc, out = sh("git apply --check %s" % patch, cwd=target)
     if rc != 0:
-        print("patch does not apply to /repo:", out[-400:]); result["detection"] = "patch does not apply to /repo"
+        print("patch does not apply to %s:" % target, out[-400:]); result["detection"] = "patch does not apply to /repo"
     else:
         checks = (a.checks or a.prop).split(",")
         det = {}
         try:
-            sh("git apply %s" % patch, cwd="/repo")
+            sh("git apply %s" % patch, cwd=target)
             for c in checks:
                 t0 = time.time()
                 rc, out = sh("./check %s --tier %s" % (c, a.tier), cwd="/verif")
@@ -88,7 +94,7 @@ def main():
                 det[c] = dict(exit=rc, detected=(rc == 1 and "VIOLATION property=" in out), wall_s=round(time.time() - t0, 1), signatures=[s[:300] for s in sigs[:6]], summary=(re.findall(r"^\[%s\] tier.*$" % c, out, re.M) or [""])[-1])
                 print("check %s tier=%s -> exit %d detected=%s (%.0fs) %s" % (c, a.tier, rc, det[c]["detected"], time.time() - t0, "; ".join(s[:140] for s in sigs[:2])))
         finally:
-            sh("git checkout -- .", cwd="/repo")
+            sh("git checkout -- .", cwd=target)
         result.setdefault("detection", {})
         result["detection"] = det
         result["detected"] = any(d["detected"] for d in det.values())
